@@ -442,6 +442,10 @@ func TestFrames(t *testing.T) {
 		if c.ValueClass >= 4 {
 			fill = "\x00"
 		}
+		// record timestamps: left to the client, or set by the application and spread over hours / months / years inside one batch
+		// (mirroring historic data): the timestamp delta of a record is a varlong of up to ten bytes and counts towards every length
+		spread := []time.Duration{0, 0, 36 * time.Hour, 60 * 24 * time.Hour, 250 * 24 * time.Hour, 800 * 24 * time.Hour}[c.Seed%6]
+		tsBase := time.Unix(1700000000, 0)
 		for round := 0; round < 2; round++ { // the first request on a connection is sized before the produce version is known
 			if c.Txn {
 				if err := p.BeginTransaction(); err != nil {
@@ -455,7 +459,11 @@ func TestFrames(t *testing.T) {
 						k := fmt.Sprintf("%s/%d", tp, q)
 						sent[k] = append(sent[k], val)
 						records++
-						p.Produce(ctx, &kgo.Record{Topic: tp, Partition: int32(q), Value: []byte(val), Key: []byte(fmt.Sprint(i))[:i%2], Headers: []kgo.RecordHeader{{Key: "h", Value: []byte("x")}}[:i%2]}, func(_ *kgo.Record, err error) {
+						var ts time.Time
+						if spread != 0 {
+							ts = tsBase.Add(time.Duration(i*(1-2*(q%2))) * spread) // forwards on even partitions, backwards on odd ones
+						}
+						p.Produce(ctx, &kgo.Record{Topic: tp, Partition: int32(q), Timestamp: ts, Value: []byte(val), Key: []byte(fmt.Sprint(i))[:i%2], Headers: []kgo.RecordHeader{{Key: "h", Value: []byte("x")}}[:i%2]}, func(_ *kgo.Record, err error) {
 							if err != nil {
 								viol("produce", "record failed: "+err.Error())
 							}
